@@ -87,6 +87,9 @@ func genIP(r *kernel.Rand) string {
 	return fmt.Sprintf("%d.%d.%d.%d", r.Range(1, 223), r.Intn(256), r.Intn(256), r.Range(1, 254))
 }
 
+// forceCarry lets a check ask for a given MSIN length and carry position (systematic sweeps).
+var forceCarry = map[string]struct{ msin, pos int }{}
+
 // genConfig draws a valid configuration.
 func genConfig(r *kernel.Rand, o GenOpts, nUE int) scn.Config {
 	var c scn.Config
@@ -117,6 +120,12 @@ func genConfig(r *kernel.Rand, o GenOpts, nUE int) scn.Config {
 		hi = lo
 	}
 	n := r.Range(lo, hi)
+	if r.Chance(1, 2) { // real IMSIs are 15 digits long: weigh that length
+		n = hi
+	}
+	if v, ok := forceCarry[o.Profile]; ok && v.msin > 0 && v.msin <= hi && v.msin >= lo {
+		n = v.msin
+	}
 	msin := []byte(r.Digits(n))
 	if r.Chance(1, 3) { // leading zeros
 		for i := 0; i < n/2; i++ {
@@ -140,6 +149,29 @@ func genConfig(r *kernel.Rand, o GenOpts, nUE int) scn.Config {
 				v -= uint64(r.Intn(5))
 			}
 			msin = []byte(fmt.Sprintf("%0*d", n, v))
+		}
+		// carry boundaries: make the population count across a power of ten at a drawn digit
+		// position (...9998, ...9999, ...0000), so that carries propagate inside the MSIN, into the
+		// digits above any fixed-width counter, and across multiples of 10^p of the numeric identifiers
+		fc, forced := forceCarry[o.Profile]
+		if nUE >= 2 && n >= 2 && (forced || r.Chance(1, 2)) {
+			pp := r.Range(1, n-1)
+			if forced && fc.pos >= 1 && fc.pos <= n-1 {
+				pp = fc.pos
+			}
+			pow := uint64(1)
+			for i := 0; i < pp; i++ {
+				pow *= 10
+			}
+			before := uint64(r.Range(1, min(nUE-1, 9)))
+			if before < pow {
+				low := pow - before
+				d := []byte(fmt.Sprintf("%0*d", pp, low))
+				copy(msin[n-pp:], d)
+				if msin[n-pp-1] == '9' { // keep room above the carry: stay clear of MSIN exhaustion
+					msin[n-pp-1] = byte('0' + r.Intn(9))
+				}
+			}
 		}
 	}
 	c.IMSI = c.MCC + c.MNC + string(msin)
